@@ -16,7 +16,7 @@ harness/cmd/C20/main.go for the ops.
   placed through the window; verdict = the property's pixel clause evaluated on the cells the
   implementation drew (glyph table, colours within one / exact when opaque, default colour when
   transparent enough, nothing outside the window).
-* `knew|kimg|kresize|kdraw|kclear|krender|krefresh`: model = `Placements` + `protoCellSize`;
+* `knew|kimg|kresize|kdraw|simg|sresize|sdraw|kclear|krender|krefresh`: model = `Placements` + `protoCellSize`;
   verdict = the spec's diff against the previous frame (`Spec.Images.mustWrite/mustDelete`) on the
   graphics sequences the implementation wrote.
 -/
@@ -268,6 +268,8 @@ structure KImg where
   mh : Nat := 0
   iw : Nat := 0      -- cell size reported by the implementation
   ih : Nat := 0
+  sixel : Bool := false      -- created with NewSixel (delete is a no-op, data is written with every placement)
+  hasData : Bool := false    -- sixel: `s.buf.Len() != 0`
   uploaded : Bool := false   -- `k.uploaded`
   pending : Nat := 0         -- encodings accumulated in `k.buf` (Resize appends, the upload resets)
 
@@ -311,12 +313,14 @@ def getField (impl key : String) : Option (List String) :=
     else none
 
 /-- Spec verdict for one rendered frame on the sequences the implementation wrote. -/
-def renderVerdict (prev : List Placement) (f : Frame) (impl : String) : String :=
+def renderVerdict (isSixel : Nat → Bool) (prev : List Placement) (f : Frame) (impl : String) : String :=
   if impl = "panic" then "FAIL panic" else
   match getField impl "D", getField impl "W" with
   | some d, some w =>
-    let wantD := sortStrs ((mustDelete prev f).map showPshort)
-    let wantW := sortStrs ((mustWrite prev f).map showPshort)
+    -- sixel placements are written as raw data at the cursor and have no delete sequence
+    let wantD := sortStrs (((mustDelete prev f).filter fun p => !isSixel p.id).map showPshort)
+    let wantW := sortStrs ((mustWrite prev f).map fun p =>
+      if isSixel p.id then s!"S@{p.col},{p.row}" else showPshort p)
     let gotD := sortStrs d
     let gotW := sortStrs w
     if gotW ≠ wantW then
@@ -346,6 +350,49 @@ def kstep (s : St) (op : List String) (impl : String) : St × String :=
     match natList? [n, w, h] with
     | some [n, w, h] => ({ s with imgs := s.imgs ++ [(n, { wPix := w, hPix := h })] }, s!"ok\t{impl}\t-")
     | _ => (s, bad)
+  | ["simg", n, w, h] =>
+    match natList? [n, w, h] with
+    | some [n, w, h] => ({ s with imgs := s.imgs ++ [(n, { wPix := w, hPix := h, sixel := true })] }, s!"ok\t{impl}\t-")
+    | _ => (s, bad)
+  | ["sresize", n, w, h] =>
+    match natList? [n, w, h] with
+    | some [n, w, h] =>
+      match s.img? n with
+      | none => (s, bad)
+      | some (_, k) =>
+        let cellW := s.xpix / s.cols
+        let cellH := s.ypix / s.rows
+        let (mcanon, k1) : String × KImg :=
+          match resizeDims floatOps k.wPix k.hPix w h cellW cellH, protoCellSize floatOps k.wPix k.hPix w h cellW cellH with
+          | .ok (pw, ph), .ok (cw, chh) =>
+            if pw = 0 ∨ ph = 0 then (s!"{cw} {chh} empty", { k with mw := cw, mh := chh, hasData := false })
+            else (s!"{cw} {chh}", { k with mw := cw, mh := chh, hasData := true })
+          | _, _ => ("panic", k)
+        let (verdict, k2) : String × KImg :=
+          match (fields impl).take 2 |> natList? with
+          | some [cw, chh] =>
+            let v := if cw > w ∨ chh > h then s!"FAIL cell size {cw}x{chh} exceeds box {w}x{h}"
+                     else if cw > ceilDiv k.wPix cellW ∨ chh > ceilDiv k.hPix cellH then s!"FAIL upscaled to {cw}x{chh} cells"
+                     else "ok"
+            (v, { k1 with iw := cw, ih := chh })
+          | _ => ("FAIL unparsable result", k1)
+        (s.setImg n k2, s!"{mcanon}\t{impl}\t{verdict}")
+    | _ => (s, bad)
+  | ["sdraw", n, c, r, ww, wh] =>
+    match natList? [n, c, r], ww.toInt?, wh.toInt? with
+    | some [n, c, r], some ww, some wh =>
+      match s.img? n with
+      | none => (s, bad)
+      | some (id, k) =>
+        -- `Sixel.Draw`: nothing without data; not drawn if larger than the window
+        let width := childExtent c ww s.cols
+        let height := childExtent r wh s.rows
+        let ps := if k.hasData ∧ (k.mw : Int) ≤ width ∧ (k.mh : Int) ≤ height
+                  then (Placements.step s.ps (.draw ⟨id, c, r, k.mw, k.mh⟩)).1 else s.ps
+        let cur := if k.hasData ∧ (k.iw : Int) ≤ width ∧ (k.ih : Int) ≤ height
+                   then s.cur ++ [⟨id, c, r, k.iw, k.ih⟩] else s.cur
+        ({ s with ps := ps, cur := cur }, s!"{snap ps}\t{impl}\t-")
+    | _, _, _ => (s, bad)
   | ["kresize", n, w, h] =>
     match natList? [n, w, h] with
     | some [n, w, h] =>
@@ -397,14 +444,16 @@ def kstep (s : St) (op : List String) (impl : String) : St × String :=
       let (imgs, ups) := out.writes.foldl (fun (acc : List (Nat × KImg) × List String) p =>
         match acc.1[p.id - 1]? with
         | some (n, k) =>
-          if !k.uploaded then
+          if !k.sixel && !k.uploaded then
             (acc.1.set (p.id - 1) (n, { k with uploaded := true, pending := 0 }),
              acc.2 ++ List.replicate k.pending (toString p.id))
           else acc
         | none => acc) (s.imgs, [])
-      let mcanon := s!"D={showList showPshort out.deletes} W={showList showPshort out.writes} U={showStrs ups} {snap ps}"
+      let isSixel (id : Nat) : Bool := (s.imgs[id - 1]?).any (·.2.sixel)
+      let showW (p : Placement) : String := if isSixel p.id then s!"S@{p.col},{p.row}" else showPshort p
+      let mcanon := s!"D={showList showPshort (out.deletes.filter fun p => !isSixel p.id)} W={showList showW out.writes} U={showStrs ups} {snap ps}"
       let frame : Frame := ⟨s.cur, s.pending || isRefresh⟩
-      let verdict := renderVerdict s.prev frame impl
+      let verdict := renderVerdict isSixel s.prev frame impl
       ({ s with ps := ps, imgs := imgs, prev := s.cur, pending := false }, s!"{mcanon}\t{impl}\t{verdict}")
     else (s, bad)
   | _ => (s, bad)
@@ -459,7 +508,7 @@ def step (s : St) (line : String) : St × String :=
         | none => (s, bad)
       | _, _, _ => (s, bad)
     else (s, bad)
-  | op => if op.head?.any (·.startsWith "k") then kstep s op impl else (s, bad)
+  | op => if op.head?.any (fun o => o.startsWith "k" || o.startsWith "s") then kstep s op impl else (s, bad)
 
 def main : IO Unit := foldLoop ({} : St) step
 
